@@ -23,7 +23,9 @@ def gen_hist(rng, length: int) -> str:
     n_alias = rng.randint(2, 3)
     shapes = rng.sample(ALIAS_SHAPES, n_alias)
     for i, sh in enumerate(shapes):
-        steps.append(f"A|T{i}|FloatTensor,0,{sh}")
+        # (the constructor flag optional=True on a shared annotation object: only the hint decides, and the object
+        #  must come out of every decoration unchanged)
+        steps.append(f"A|T{i}|FloatTensor,{1 if rng.random() < 0.3 else 0},{sh}")
     provs = {}
     for pid, kind in (("p1", "fresh"), ("p2", "long"), ("p3", "bad")):
         if rng.random() < 0.8:
@@ -31,11 +33,15 @@ def gen_hist(rng, length: int) -> str:
             steps.append(f"V|{pid}|{kind}|{sc}")
             provs[pid] = kind
     funcs = {}
+    nested_targets = set()
 
     def define(fid):
         pid = rng.choice(["-", "-", *provs.keys(), *[f"self:{p}" for p in provs if provs[p] != "bad"]])
         ps = []
-        for name in ("x", "y")[: rng.randint(1, 2)]:
+        # (a function that another body calls keeps its parameter names when it is defined again: the nested call
+        #  passes exactly those)
+        npar = len(funcs[fid]["ps"]) if fid in funcs and fid in nested_targets else rng.randint(1, 2)
+        for name in ("x", "y")[:npar]:
             if rng.random() < 0.15:
                 k = rng.randint(1, 2)
                 inner = "+".join(f"T{rng.randrange(n_alias)}:{rng.choice(['0', '0', '1'])}" for _ in range(k))
@@ -47,6 +53,8 @@ def gen_hist(rng, length: int) -> str:
             ret = "(" + "+".join(f"T{rng.randrange(n_alias)}:0" for _ in range(rng.randint(1, 2))) + ")"
         same = [g for g, v in funcs.items() if [n for n, _ in v["ps"]] == [n for n, _ in ps]]
         nested = rng.choice(same + [fid]) if (rng.random() < 0.2) else "-"
+        if nested != "-":
+            nested_targets.add(nested)
         funcs[fid] = {"ps": ps, "ret": ret, "pid": pid}
         return f"D|{fid}|{pid}|{';'.join(f'{n}={h}' for n, h in ps)}|{ret}|{nested}"
 
